@@ -13,19 +13,20 @@ SIM_SANITIZER_DEFAULTS("")
 
 namespace sim {
 #define G(N) bool group_run_##N(std::string const&, std::string const&, Json const&, RunOut&); void group_list_##N(std::vector<KindInfo>&);
-G(a) G(b) G(c) G(d) G(e) G(f) G(g)
+G(a) G(b) G(c) G(d) G(e) G(f) G(g) G(h)
 #undef G
 
 static bool run_plan(Json const& plan, RunOut& out)
 {
     std::string k = plan.str("kind"), a = plan.str("alloc");
     return group_run_a(k, a, plan, out) || group_run_b(k, a, plan, out) || group_run_c(k, a, plan, out) ||
-           group_run_d(k, a, plan, out) || group_run_e(k, a, plan, out) || group_run_f(k, a, plan, out) || group_run_g(k, a, plan, out);
+           group_run_d(k, a, plan, out) || group_run_e(k, a, plan, out) || group_run_f(k, a, plan, out) || group_run_g(k, a, plan, out) ||
+           group_run_h(k, a, plan, out);
 }
 static std::vector<KindInfo> all_kinds()
 {
     std::vector<KindInfo> v;
-    group_list_a(v); group_list_b(v); group_list_c(v); group_list_d(v); group_list_e(v); group_list_f(v); group_list_g(v);
+    group_list_a(v); group_list_b(v); group_list_c(v); group_list_d(v); group_list_e(v); group_list_f(v); group_list_g(v); group_list_h(v);
     return v;
 }
 
@@ -35,7 +36,14 @@ static Json make_plan(uint64_t base_seed, std::string const& profile, long i, st
 {
     uint64_t s = mix(base_seed ^ (profile == "c01" ? 0xC01C01ull : 0xC10C10ull), (uint64_t)i);
     Rng r(s);
-    KindInfo const& ki = kinds[r.below(kinds.size())];
+    size_t kidx = r.below(kinds.size());
+    if (profile != "c01" && r.chance(1, 5))
+    {   // element construction failures only exist for the kinds with a non-trivial element: weight them up in C10 histories
+        std::vector<size_t> tr;
+        for (size_t q = 0; q < kinds.size(); ++q) if (kinds[q].cfg.tracked) tr.push_back(q);
+        if (!tr.empty()) kidx = tr[r.below(tr.size())];
+    }
+    KindInfo const& ki = kinds[kidx];
     // non-propagating unequal allocators are where the protocol is hardest: weight them up
     unsigned a = (unsigned)r.below(std_version() >= 17 ? 7 : 5);
     char const* al = a < 1 ? ALLOCS[0] : a < 3 ? ALLOCS[1] : a < 5 ? ALLOCS[2] : "pmr";
